@@ -11,15 +11,15 @@ CHECK = dict(
     assumptions=[],
     units=[
         dict(name="filterstorage", dir=F + "filterstorage", src="C12/filterstorage", runs=[
-            dict(name="histories", run="^TestVerifC12Histories$", quick=600, thorough=40000, shards_quick=2, shards_thorough=10, env=_ENV),
+            dict(name="histories", run="^TestVerifC12Histories$", quick=600, thorough=30000, shards_quick=2, shards_thorough=10, env=_ENV),
         ]),
         # A unit of its own: the driver writes one overlay file per unit name, and the plain and the -race build of one
         # unit would write it concurrently.
         dict(name="filterstorage_race", dir=F + "filterstorage", src="C12/filterstorage", runs=[
-            dict(name="concurrent", run="^TestVerifC12Concurrent$", quick=60, thorough=3000, shards_thorough=4, race=True, env=_ENV),
+            dict(name="concurrent", run="^TestVerifC12Concurrent$", quick=60, thorough=2400, shards_thorough=4, race=True, env=_ENV),
         ]),
         dict(name="hashprefix", dir=F + "hashprefix", src="C12/hashprefix", runs=[
-            dict(name="refreshrace", run="^TestVerifC12RefreshRace$", quick=400, thorough=20000, shards_thorough=2, env=_ENV),
+            dict(name="refreshrace", run="^TestVerifC12RefreshRace$", quick=250, thorough=6000, shards_thorough=3, env=_ENV),
         ]),
     ],
 )
